@@ -112,19 +112,39 @@ class LeastSquaresStub:
 
 
 class BrentqStub:
-    """scipy.optimize.brentq(f, a, b): requires sign change, returns x in [a,b] with f(x) = 0.
-    f must return a scalar (a 1-element array is what breaks under numpy >= 2)."""
+    """scipy.optimize.brentq(f, a, b, args=(), xtol=2e-12, rtol=8.9e-16, maxiter=100, full_output=False, disp=True):
+    requires a sign change, returns x in [a,b] with f(x) = 0.  f must return a scalar (a 1-element
+    array is what breaks under numpy >= 2).  The root guarantee is scipy's contract for the default
+    tolerances and iteration budget with disp=True; a call that loosens any of them (smaller maxiter,
+    larger xtol/rtol, disp=False, which returns the last iterate silently) only gets `x in [a,b]`
+    and is recorded as ('brentq-weakened', what)."""
+    DEFAULTS = {'xtol': 2e-12, 'rtol': 8.881784197001252e-16, 'maxiter': 100, 'full_output': False, 'disp': True}
 
     def __init__(self):
         self.n = 0
 
-    def __call__(self, f, a, b, *args, **kw):
+    def __call__(self, f, a, b, args=(), xtol=2e-12, rtol=8.881784197001252e-16, maxiter=100, full_output=False, disp=True):
         ctx = Ctx.cur
+        if args:
+            g = f
+            f = lambda x: g(x, *args)  # noqa
+        weak = []
+        try:
+            if float(xtol) > 2e-12:
+                weak.append(f'xtol={xtol}')
+            if float(rtol) > 8.881784197001252e-16:
+                weak.append(f'rtol={rtol}')
+            if int(maxiter) < 100:
+                weak.append(f'maxiter={maxiter}')
+        except BaseException:
+            weak.append('non-constant tolerance arguments')
+        if not disp:
+            weak.append('disp=False')
         fa, fb = f(a), f(b)
         for v in (fa, fb):
             if isinstance(v, np.ndarray) and v.ndim >= 1:
                 raise TypeError('brentq: f must return a scalar (got an array)')
-        self.n += 1
+        self.n = ctx.notes['brentq_n'] = ctx.notes.get('brentq_n', 0) + 1
         # evaluate the function at a fresh probe point *now* (closures over loop variables are
         # only meaningful while the caller's loop iteration is live)
         probe = SymReal(z3.Real(f'probe{self.n}'))
@@ -133,13 +153,23 @@ class BrentqStub:
         if isinstance(fp, np.ndarray):
             fp = fp.ravel()[0]
         ctx.log.append(('brentq', f, a, b, fa, fb, probe, fp))
+        if weak:
+            ctx.log.append(('brentq-weakened', ', '.join(weak)))
         if not bool(_prod_nonpos(fa, fb)):
             raise ValueError('f(a) and f(b) must have different signs')
         x = SymReal(z3.Real(f'root{self.n}'))
-        fx = f(x)
-        if isinstance(fx, np.ndarray):
-            fx = fx.ravel()[0]
-        ctx.assume(x.t >= tz(a), x.t <= tz(b), tz(fx) == 0)
+        if weak:
+            ctx.assume(x.t >= tz(a), x.t <= tz(b))
+        else:
+            fx = f(x)
+            if isinstance(fx, np.ndarray):
+                fx = fx.ravel()[0]
+            ctx.assume(x.t >= tz(a), x.t <= tz(b), tz(fx) == 0)
+        if full_output:
+            class _R:
+                converged = True
+                root = x
+            return x, _R()
         return x
 
 
